@@ -45,7 +45,10 @@ def streams(ctx):
         ops2.append("algall %d %d %s" % (x, rng.choice((1, 3, 16)), " ".join(n for n in ALL if n != "cache")))
     n_big = 25 if ctx.quick else 400
     for x in gen.structured_x(rng, 10 ** 8, 10 ** 10 if ctx.quick else 10 ** 12, n_big):
-        ops2.append("algall %d %d %s" % (x, rng.choice((1, 3, 16)), " ".join(n for n in ALL if n != "cache")))
+        # the O(x^(2/3)) / O(x) algorithms (primesieve, legendre, lmo1..3) need minutes per call beyond 1e10: one op would
+        # run into the per-op alarm (HANG) of the harness — they are compared up to 1e10, the others up to 1e12
+        names = [n for n in ALL if n != "cache" and (x <= 10 ** 10 or n not in SLOW)]
+        ops2.append("algall %d %d %s" % (x, rng.choice((1, 3, 16)), " ".join(names)))
     n_huge = 8 if ctx.quick else 120
     for x in gen.structured_x(rng, 10 ** 13, 10 ** 15 if ctx.quick else 10 ** 16, n_huge):
         ops2.append("algall %d 16 %s" % (x, " ".join(fast)))
@@ -88,5 +91,6 @@ def streams(ctx):
     def nontrivial(op, res):
         p = op.split()
         return op if int(p[1]) > 30719 else None
-    st2 = Stream("all_algorithms", ops2, oracle=True, judge=judge, nontrivial=nontrivial, timeout=3000)
+    st2 = Stream("all_algorithms", ops2, oracle=True, judge=judge, nontrivial=nontrivial, timeout=6000,
+                 env={"PCV_OP_TIMEOUT": "600"})
     return [st1, st2]
